@@ -411,8 +411,19 @@ func runJobs(meta propMeta, tier string, only string) []*jobResult {
 					buildMu.Unlock()
 					return
 				}
-				if len(r.Violations) > 0 {
-					atomic.StoreInt32(&violationSeen, 1)
+				if stopAtFirst {
+					kn := loadKnown()
+					for _, v := range r.Violations {
+						isKnown := false
+						for _, k := range kn.Findings {
+							if k.Property == meta.ID && (k.Key == v.Key || strings.HasSuffix(k.Key, "*") && strings.HasPrefix(v.Key, strings.TrimSuffix(k.Key, "*"))) {
+								isKnown = true
+							}
+						}
+						if !isKnown { // a known finding is not what a re-run is looking for
+							atomic.StoreInt32(&violationSeen, 1)
+						}
+					}
 				}
 				shardRes[s] = &r
 			}()
